@@ -13,6 +13,7 @@ import (
 	pb "github.com/ipfs/boxo/ipld/unixfs/pb"
 	"github.com/ipfs/go-cid"
 	"github.com/spaolacci/murmur3"
+	"google.golang.org/protobuf/encoding/protowire"
 )
 
 // Getter is the model's view of the store: durable bytes by CID.
@@ -33,6 +34,11 @@ type Span struct {
 	Depth  int
 	Leaf   bool
 	Parent int // index into Spans, -1 for the root
+	// what the block itself records (dag-pb interior nodes; parsed from the
+	// stored bytes with a parser of the model's own)
+	Raw         bool // raw codec
+	HasFileSize bool // UnixFS Data.filesize is present
+	NSizes      int  // number of UnixFS Data.blocksizes entries
 }
 
 // File is the model of a file entity.
@@ -45,9 +51,10 @@ type File struct {
 	// Sparse files (BuildFileSparse) do not materialise Content: Len is the
 	// logical length and ReadAt computes bytes from the leaf spans. They are
 	// how de-duplicated files of many gigabytes are modelled.
-	Sparse bool
-	Len    int64
-	leaves map[string][]byte
+	Sparse   bool
+	Len      int64
+	leaves   map[string][]byte
+	children [][]int
 }
 
 // BuildFile walks a stored file DAG.
@@ -142,6 +149,7 @@ func (f *File) walk(g Getter, c cid.Cid, depth, parent int) error {
 	case codecRaw:
 		f.emit(c, data)
 		f.Spans[idx].Leaf = true
+		f.Spans[idx].Raw = true
 	case codecDagPB:
 		pn, err := merkledag.DecodeProtobuf(data)
 		if err != nil {
@@ -156,6 +164,7 @@ func (f *File) walk(g Getter, c cid.Cid, depth, parent int) error {
 		default:
 			return fmt.Errorf("model: %s is not a file node (type %v)", c, fsn.Type())
 		}
+		f.Spans[idx].HasFileSize, f.Spans[idx].NSizes = scanUnixFSSizes(pn.Data())
 		if len(pn.Links()) == 0 {
 			f.emit(c, fsn.Data())
 			f.Spans[idx].Leaf = true
@@ -225,6 +234,101 @@ func (f *File) Allowed(a, b int64) map[string]bool {
 				mark(i)
 			}
 		}
+	}
+	return m
+}
+
+// scanUnixFSSizes reads a UnixFS Data message just far enough to tell whether
+// filesize (field 3) is present and how many blocksizes (field 4, unpacked or
+// packed) it records.
+func scanUnixFSSizes(b []byte) (hasFileSize bool, nSizes int) {
+	for len(b) > 0 {
+		num, typ, n := protowire.ConsumeTag(b)
+		if n < 0 {
+			return
+		}
+		b = b[n:]
+		switch typ {
+		case protowire.VarintType:
+			_, n := protowire.ConsumeVarint(b)
+			if n < 0 {
+				return
+			}
+			b = b[n:]
+			if num == 3 {
+				hasFileSize = true
+			}
+			if num == 4 {
+				nSizes++
+			}
+		case protowire.BytesType:
+			v, n := protowire.ConsumeBytes(b)
+			if n < 0 {
+				return
+			}
+			b = b[n:]
+			if num == 4 {
+				for len(v) > 0 {
+					_, m := protowire.ConsumeVarint(v)
+					if m < 0 {
+						break
+					}
+					v = v[m:]
+					nSizes++
+				}
+			}
+		default:
+			n := protowire.ConsumeFieldValue(num, typ, b)
+			if n < 0 {
+				return
+			}
+			b = b[n:]
+		}
+	}
+	return
+}
+
+// AllowedLazy is Allowed plus the blocks a lazy reader may have to open only
+// to MEASURE: a file node that does not record the size of a child has no
+// other way to learn where that child's bytes end than to open it (its root
+// block), and if that child in turn records no filesize, to measure its
+// children the same way. Raw children never need that: their size is the
+// Tsize of the link. A node that records all its block sizes (every
+// importer's output) adds nothing, so for ordinary DAGs this is Allowed.
+func (f *File) AllowedLazy(a, b int64) map[string]bool {
+	m := f.Allowed(a, b)
+	if f.children == nil {
+		f.children = make([][]int, len(f.Spans))
+		for i, s := range f.Spans {
+			if s.Parent >= 0 {
+				f.children[s.Parent] = append(f.children[s.Parent], i)
+			}
+		}
+	}
+	var measure func(i int, depth int)
+	measure = func(i int, depth int) {
+		if depth > 80 {
+			return
+		}
+		for k, j := range f.children[i] {
+			c := f.Spans[j]
+			if c.Raw || k < f.Spans[i].NSizes {
+				continue
+			}
+			m[c.Cid.KeyString()] = true
+			if !c.Leaf && !c.HasFileSize {
+				measure(j, depth+1)
+			}
+		}
+	}
+	// every interior node whose reader a read of [a,b) builds measures all
+	// its links; the root's is built by any read, and an end-relative seek on
+	// a root without filesize measures the root's links too
+	for i, s := range f.Spans {
+		if s.Leaf || !m[s.Cid.KeyString()] {
+			continue
+		}
+		measure(i, 0)
 	}
 	return m
 }
